@@ -359,6 +359,16 @@ ITEM = {
                                                         'wrong_msg': 'no'},
                         conf=lambda: ({'expect': '[1,2,3,4]', 'grade_decimal': 0.5, 'msg': 'm'}, '[3,4,5,6]'),
                         E=_E('[1,2,3,4]', '[3,4,5,6]', '[1,', 'eval'), I=['[1,2,3,5]', '[3,4,5,7]', '[9,9,9,9]', '[1,2,3', 5]),
+    # the "malformed" input parses and names only known things but fails while being evaluated with infinities allowed
+    # (IntervalGrader's default subgrader, allow_inf graders): whatever evaluation switches on must be switched off again
+    # on the failure path too (a seeded change left numpy's overflow handling at 'ignore' after such a call)
+    'IntervalEvalFail': dict(cls=IntervalGrader, cfg=lambda: {}, conf=lambda: '[1,2)',
+                             E=_E('[1,2)', '(3,4]', '[1,2,3]', 'infer'), I=['[1,2)', '(3,4]', '[1,3)', '[1/0,infty)', 5]),
+    'FormulaInf': dict(cls=FormulaGrader, cfg=lambda: {'variables': ['x'], 'sample_from': {'x': [1, 3]}, 'allow_inf': True,
+                                                        'samples': 2},
+                       conf=lambda: 'x+1', E=_E('x+1', '2*x', 'x+', 'eval'), I=['1+x', 'x*2', 'x', 'sin(1,2)+1/0', 5]),
+    'NumericalBig': dict(cls=NumericalGrader, cfg=lambda: {}, conf=lambda: '1e160',
+                         E=_E('1e160', '4', '3+', 'eval'), I=['1e160', '4', '2e160', '1e160*', None]),
     'SingleList': dict(cls=SingleListGrader, cfg=lambda: {'subgrader': StringGrader()}, conf=lambda: ['a', 'b'],
                        E=_E('a,b', 'c,d', 'a,,b', 'infer'), I=['b, a', 'c,d', 'a,c', 'a,,', 5]),
     'Interval': dict(cls=IntervalGrader, cfg=lambda: {}, conf=lambda: '[1,2)',
